@@ -658,7 +658,12 @@ impl<Service: service::Service> DeadNodeView<Service> {
             }
         };
 
-        cleanup_failure?;
+        if let Err(e) = cleanup_failure {
+            // keep the monitoring token so that the node is still detected as dead and the
+            // cleanup can be repeated
+            cleaner.abandon();
+            return Err(e);
+        }
 
         // remove the port tags last, after the ports have been removed from the service;
         // now, everything not belonging to a service can be removed
@@ -704,7 +709,12 @@ impl<Service: service::Service> DeadNodeView<Service> {
             }
         }
 
-        cleanup_failure?;
+        if let Err(e) = cleanup_failure {
+            // keep the monitoring token so that the node is still detected as dead and the
+            // cleanup can be repeated
+            cleaner.abandon();
+            return Err(e);
+        }
 
         match remove_node::<Service>(*self.id(), config) {
             Ok(_) => {
